@@ -148,6 +148,12 @@ fn main() {
                 std::process::exit(2)
             });
             let j: serde_json::Value = serde_json::from_str(&s).expect("replay file JSON");
+            if j["engine"].as_str() == Some("msim") {
+                // engine C: the execution is (scenario, workload seed, Miri seed, rate); Miri re-runs it
+                let verif = std::env::var("VERIF_DIR").unwrap_or_else(|_| "/verif".to_string());
+                let st = std::process::Command::new(format!("{}/bin/msim", verif)).arg("replay").arg(&path).status().expect("bin/msim");
+                std::process::exit(st.code().unwrap_or(2));
+            }
             let id = j["property"].as_str().unwrap_or("");
             let p = props::by_id(id).unwrap_or_else(|| {
                 eprintln!("unknown property {}", id);
